@@ -30,7 +30,7 @@ for n in sorted(os.listdir(S)):
             verdict = f"{cid}: exit {r.get('exit')} ({'; '.join(r.get('inconclusive', []))[:120]})"
         rows.append((n, prop, need, verdict))
     if not lr:
-        rows.append((n, prop, need, "not run yet"))
+        rows.append((n, prop, need, "patch no longer applies to the final tree (later repairs rewrote the same lines)" if n.startswith("revert-") else "not run yet"))
 import sys
 out = ["| Seed | Prop. | What it needs to manifest | Result |", "|---|---|---|---|"]
 for r in rows:
